@@ -13,7 +13,7 @@ import (
 // arbitrary targets / hashes / proof lengths, and a rejected Stump.Update leaves the stump unchanged.
 func TestRAC_C04(t *testing.T) {
 	res := newRacResult("C04")
-	cfgs := []mapCfg{{true, 63}, {true, 0}, {false, 63}}
+	cfgs := []mapCfg{{Full: true, TotalRows: 63}, {Full: true, TotalRows: 0}, {Full: false, TotalRows: 63}}
 	maxLeaves, maxBlocks := 5, 2
 	maxT := 2
 	if res.thorough() {
